@@ -71,6 +71,15 @@ that misses. One of them (a mutex leaked on a lookup miss) also exposed two defe
 section 7. Two changes were judged not to break the property as stated (they need the caller to modify a
 container returned by the library; `seeded_out_of_scope/README.md`).
 
+Round 7 (20 changes; the agents were told that the harness sweeps every day with the obvious constructors at a
+dozen times of day under all option values, and to think about what it holds constant) was the most productive:
+only 1 of the 18 distinct changes was caught as-is (two were duplicates of earlier seeds or of each other). The
+single cause: every check asked its questions of *freshly constructed* objects, so anything wrong only on an object
+reached by navigation (`Next(n)` results, list items, objects asked something before being stepped, chains of
+steps), through a second entry point (exported fortune constructors), or at a magnitude outside the step alphabets
+(whole 400-year cycles, 23,000 months) was invisible. Section 0.1 ("Round 7") lists what was added; after it all
+18 are detected, and all 101 earlier seeds still are.
+
 ### 10.2 Hand-written overlay mutants (`selftest.py`, results in `selftest.json`)
 
 %d mutants (1–3 per property, listed with their intent in `selftest.py`) are applied through the build
